@@ -17,3 +17,25 @@ with open(os.path.join(root, 'README.md'), 'w') as fh:
     for r in rows:
         fh.write('| `%s` | %s | %s | %s | %s |\n' % r)
 print(open(os.path.join(root, 'README.md')).read())
+
+# ---- behaviour-preserving refactorings (negative controls)
+rroot = os.path.join(os.path.dirname(root), 'refactors')
+if os.path.isdir(rroot):
+    import re
+    rrows = []
+    for m in sorted(glob.glob(os.path.join(rroot, '*', 'meta.json'))):
+        j = json.load(open(m))
+        name = os.path.basename(os.path.dirname(m))
+        diff = open(os.path.join(os.path.dirname(m), 'patch.diff')).read()
+        files = sorted(set(re.findall(r'^\+\+\+ b/(\S+)', diff, re.M)))
+        fa = j.get('first_run_alarms') or {}
+        rep = '; '.join('%s: %s' % (k, ', '.join(sorted({r.split(' ')[0] for r in v}))) for k, v in sorted(fa.items())) or 'none'
+        rrows.append((name, j.get('anchored_property', ''), ', '.join(f.replace('src/', '') for f in files), rep, j.get('history', '')))
+    with open(os.path.join(rroot, 'README.md'), 'w') as fh:
+        fh.write('# Independent behaviour-preserving refactorings (negative controls)\n\nEach directory holds `patch.diff`, the author\'s `author_notes.md` (why behaviour is unchanged) and `meta.json`. '
+                 'Produced by sub-agents that saw only a property\'s text and a scratch worktree of /repo; each builds and passes `cargo test` with and without `--features serde` (`evx/refcheck.py`). '
+                 'Every registered check must stay silent on every one of them; they are part of the mutant self-test (`evx/mutate.py`, thorough tier). '
+                 'The column "first run" lists the checks that raised a false alarm when the refactoring was first tried, "history" what was changed in the rule.\n\n'
+                 '| refactoring | anchors of | files | false alarms on first run | history |\n|---|---|---|---|---|\n')
+        for r in rrows:
+            fh.write('| `%s` | %s | %s | %s | %s |\n' % r)
